@@ -348,3 +348,143 @@ fn c17_posix_abbreviation_anywhere() {
         assert!(p.pos() >= pos + 3);
     }
 }
+
+// ------------------------------------------------------------------------------------------------ (2) glue
+// Contract stubs.  Each one ASSERTS the callee's precondition (not at the end of the input, where the real function
+// would index out of bounds), then nondeterministically succeeds or fails, moving the position forward by any amount
+// the proved contract allows and returning any value the proved contract allows.
+fn adv(p: &Parser<'_>, min: usize) {
+    let k: usize = kani::any();
+    kani::assume(min <= k && k <= p.tz.len() - p.pos());
+    p.pos.set(p.pos() + k);
+}
+fn any_wf_day() -> PosixDay {
+    let which: u8 = kani::any();
+    let n: i16 = kani::any();
+    let (m, w, d): (i8, i8, i8) = (kani::any(), kani::any(), kani::any());
+    let day = if which == 0 { PosixDay::JulianOne(n) } else if which == 1 { PosixDay::JulianZero(n) } else { PosixDay::WeekdayOfMonth { month: m, week: w, weekday: d } };
+    kani::assume(wf_day(&day));
+    day
+}
+fn any_wf_daytime() -> PosixDayTime {
+    let t: i32 = kani::any();
+    kani::assume(-604799 <= t && t <= 604799);
+    PosixDayTime { date: any_wf_day(), time: PosixTime { second: t } }
+}
+/// contract of c17_posix_abbreviation / c17_posix_abbreviation_anywhere
+fn stub_abbreviation<'s>(p: &Parser<'s>) -> Result<Abbreviation, Error> {
+    assert!(p.pos() < p.tz.len(), "parse_abbreviation called at the end of the input");
+    if kani::any() { adv(p, 3); Ok(Abbreviation::new("AAA").unwrap()) } else { adv(p, 0); Err(err!("stub")) }
+}
+/// contract of c17_posix_offset (no precondition: the real function copes with the end of the input)
+fn stub_offset<'s>(p: &Parser<'s>) -> Result<PosixOffset, Error> {
+    if kani::any() {
+        adv(p, 1);
+        let s: i32 = kani::any(); kani::assume(-89999 <= s && s <= 89999);
+        Ok(PosixOffset { second: s })
+    } else { adv(p, 0); Err(err!("stub")) }
+}
+/// contract of c17_posix_datetime
+fn stub_datetime<'s>(p: &Parser<'s>) -> Result<PosixDayTime, Error> {
+    assert!(p.pos() < p.tz.len(), "parse_posix_datetime called at the end of the input");
+    if kani::any() { adv(p, 1); Ok(any_wf_daytime()) } else { adv(p, 0); Err(err!("stub")) }
+}
+/// contract of c17_posix_rule
+fn stub_rule<'s>(p: &Parser<'s>) -> Result<PosixRule, Error> {
+    assert!(p.pos() < p.tz.len(), "parse_rule called at the end of the input");
+    if kani::any() { adv(p, 3); Ok(PosixRule { start: any_wf_daytime(), end: any_wf_daytime() }) } else { adv(p, 0); Err(err!("stub")) }
+}
+/// contract of c17_posix_dst
+fn stub_dst<'s>(p: &Parser<'s>, std_offset: &PosixOffset) -> Result<PosixDst<Abbreviation>, Error> {
+    assert!(p.pos() < p.tz.len(), "parse_posix_dst called at the end of the input");
+    assert!(-89999 <= std_offset.second && std_offset.second <= 89999, "parse_posix_dst called with a standard offset outside what parse_posix_offset returns");
+    if kani::any() {
+        adv(p, 7);
+        let s: i32 = kani::any(); kani::assume(-89999 <= s && s <= 93599);
+        let r = PosixRule { start: any_wf_daytime(), end: any_wf_daytime() };
+        Ok(PosixDst { abbrev: Abbreviation::new("AAA").unwrap(), offset: PosixOffset { second: s }, rule: r })
+    } else { adv(p, 0); Err(err!("stub")) }
+}
+
+//@harness c17_posix_rule
+//@target shared::posix::Parser::parse_rule (src/shared/posix.rs)
+//@prop C17
+//@tier quick
+//@timeout 600
+//@doc glue, callee parse_posix_datetime replaced by its contract stub (c17_posix_datetime).  Precondition: not at the end of the input.  Every buffer of up to 6 bytes: the callee is never called at the end of the input; Ok(r) => both day-times satisfy PosixDayTime::wf and the position advanced by at least 3, not past the end; no panic
+#[kani::proof]
+#[kani::stub(crate::shared::posix::Parser::parse_posix_datetime, stub_datetime)]
+fn c17_posix_rule() {
+    let bytes: [u8; 6] = kani::any();
+    let len: usize = kani::any(); kani::assume(len <= 6);
+    let pos: usize = if kani::any() { 1 } else { 0 }; kani::assume(pos < len);
+    let p = mk(&bytes[..len], pos, kani::any());
+    let r = p.parse_rule();
+    assert!(p.pos() <= len);
+    if let Ok(r) = r { assert!(wf_daytime(&r.start) && wf_daytime(&r.end) && p.pos() >= pos + 3); }
+}
+
+//@harness c17_posix_dst
+//@target shared::posix::Parser::parse_posix_dst (src/shared/posix.rs)
+//@prop C17
+//@tier quick
+//@timeout 600
+//@doc glue, callees parse_abbreviation / parse_posix_offset / parse_rule replaced by their contract stubs.  Precondition: not at the end of the input, standard offset inside -89999..=89999 (what parse_posix_offset returns).  Every buffer of up to 9 bytes: no callee is called at the end of the input; Ok(d) => PosixDst::wf: the DST offset (explicit, or standard + 1 h) is inside -89999..=93599 and the rule is well-formed; the position advanced by at least 7; no panic, no overflow in `std + 3600`
+#[kani::proof]
+#[kani::stub(crate::shared::posix::Parser::parse_abbreviation, stub_abbreviation)]
+#[kani::stub(crate::shared::posix::Parser::parse_posix_offset, stub_offset)]
+#[kani::stub(crate::shared::posix::Parser::parse_rule, stub_rule)]
+fn c17_posix_dst() {
+    let bytes: [u8; 9] = kani::any();
+    let len: usize = kani::any(); kani::assume(len <= 9);
+    let pos: usize = if kani::any() { 1 } else { 0 }; kani::assume(pos < len);
+    let std: i32 = kani::any(); kani::assume(-89999 <= std && std <= 89999);
+    let p = mk(&bytes[..len], pos, kani::any());
+    let r = p.parse_posix_dst(&PosixOffset { second: std });
+    assert!(p.pos() <= len);
+    if let Ok(d) = r {
+        assert!(wf_dst(&d) && -89999 <= d.offset.second && d.offset.second <= 93599);
+        assert!(p.pos() >= pos + 7);
+        kani::cover!(d.offset.second == 93599);
+    }
+}
+
+//@harness c17_posix_time_zone
+//@target shared::posix::Parser::{parse,parse_prefix,parse_posix_time_zone,remaining} (src/shared/posix.rs)
+//@prop C17
+//@tier quick
+//@timeout 600
+//@doc glue, callees parse_abbreviation / parse_posix_offset / parse_posix_dst replaced by their contract stubs.  Precondition: NON-EMPTY input (the empty input is c17_posix_parse_empty).  Every buffer of 1..=8 bytes, both entry points (parse, parse_prefix): no callee is called at the end of the input or with a standard offset outside -89999..=89999; Ok(tz) => PosixTimeZone::wf (the precondition of every lookup in the Verus unit posix); parse_prefix returns exactly the unread rest; parse accepts only when nothing is left; no panic
+#[kani::proof]
+#[kani::stub(crate::shared::posix::Parser::parse_abbreviation, stub_abbreviation)]
+#[kani::stub(crate::shared::posix::Parser::parse_posix_offset, stub_offset)]
+#[kani::stub(crate::shared::posix::Parser::parse_posix_dst, stub_dst)]
+fn c17_posix_time_zone() {
+    let bytes: [u8; 8] = kani::any();
+    let len: usize = kani::any(); kani::assume(1 <= len && len <= 8);
+    let p = mk(&bytes[..len], 0, kani::any());
+    if kani::any() {
+        let r = p.parse();
+        assert!(p.pos() <= len);
+        if let Ok(tz) = r { assert!(wf_tz(&tz) && p.pos() == len); kani::cover!(tz.dst.is_some()); kani::cover!(tz.dst.is_none()); }
+    } else {
+        let r = p.parse_prefix();
+        assert!(p.pos() <= len);
+        if let Ok((tz, rest)) = r { assert!(wf_tz(&tz) && rest.len() == len - p.pos() && p.pos() >= 4); }
+    }
+}
+
+//@harness c17_posix_parse_empty
+//@target shared::posix::Parser::parse on the empty string (= PosixTimeZone::parse(b""), TimeZone::posix("")) (src/shared/posix.rs)
+//@prop C17
+//@tier quick
+//@timeout 300
+//@doc the empty TZ string is answered with Err.  On jiff 0.2.8 this FAILS: parse_abbreviation reads `self.tz[0]` without checking for the end of the input (finding: TimeZone::posix("") panics with "index out of bounds: the len is 0 but the index is 0")
+#[kani::proof]
+#[kani::stub(core::str::from_utf8, stub_from_utf8)]
+#[kani::unwind(33)]
+fn c17_posix_parse_empty() {
+    let empty: [u8; 0] = [];
+    let p = Parser { ianav3plus: true, ..Parser::new(&empty[..]) };
+    assert!(p.parse().is_err());
+}
